@@ -772,6 +772,38 @@ def poly_segments(o):
     return out
 
 
+def gen_pair_object(rng, tol):
+    """union / difference / intersection of two near-duplicate placements in one unit, with probe
+    points inside each placement (the symmetric difference is where a wrong merge shows)"""
+    ra, xa, rb, xb, kind = gen_pair(rng, tol)
+
+    def place(r, x):
+        o = {"k": "shape", "r": r}
+        if x is None:
+            return o
+        if isinstance(x, dict):
+            return {"k": "xf", "x": x, "o": o}
+        return {"k": "tr", "t": x, "o": o}
+    a, b = place(ra, xa), place(rb, xb)
+    k = rng.below(4)
+    obj = {"k": "any", "os": [a, b]} if k < 2 else {"k": "sub", "a": a, "b": b} if k == 2 else \
+        {"k": "all", "os": [a, b]}
+    probes = []
+    for r, x in ((ra, xa), (rb, xb)):
+        e = region_extent(r)
+        got = 0
+        for _ in range(300):
+            q = [(rng.unit() * 2 - 1) * e * 1.1 for _ in range(3)]
+            if region_mem(r, q):
+                probes.append(xf_up(x, q))
+                got += 1
+                if got >= 14:
+                    break
+    obj["_probes"] = probes
+    obj["_pair"] = kind
+    return obj
+
+
 def region_plain_words(reg):
     if reg["type"] == "genprism":
         return "genprism %s %d %s" % (hx(reg["p"][0]), reg["n"], " ".join(hx(v) for v in reg["p"][1:]))
@@ -916,6 +948,258 @@ def object_extent(o):
         e = region_extent(reg) + xf_size(tra)
         ext = max(ext, e)
     return ext
+
+
+
+# --------------------------------------------------------------------------- near-duplicate pairs
+def axis_rotation(k, th):
+    c, sn = math.cos(th), math.sin(th)
+    if k == 0:
+        return [1.0, 0.0, 0.0, 0.0, c, -sn, 0.0, sn, c]
+    if k == 1:
+        return [c, 0.0, sn, 0.0, 1.0, 0.0, -sn, 0.0, c]
+    return [c, -sn, 0.0, sn, c, 0.0, 0.0, 0.0, 1.0]
+
+
+def gen_pair(rng, tol):
+    """two placements (region, transform) of same-size solids in ONE unit whose emitted surfaces
+    agree in all coefficient groups except one: mirror rotations ±θ about a coordinate axis with a
+    common centre on it, swapped axes, shifted origin (within / outside tolerance), scaled size,
+    exact duplicates.  Returns (regA, xfA, regB, xfB, kind)."""
+    reg = gen_region(rng, ["cyl", "cone", "ellipsoid", "sphere", "box", "prism", "cyl", "cone", "ellipsoid"],
+                     thin=False)
+    kind = rng.choice(["mirror", "mirror", "mirror", "swap", "shift", "shift", "scale", "same"])
+    regB = {k: (list(v) if isinstance(v, list) else v) for k, v in reg.items()}
+    k = rng.below(3)
+    c = [0.0, 0.0, 0.0]
+    if rng.chance(2, 3):
+        c[k] = (rng.unit() * 2 - 1) * 3.0
+    if kind == "mirror":
+        th = rng.choice([0.05, 0.2, 0.5, math.pi / 4, 1.0]) if rng.chance(1, 2) else 0.02 + 1.2 * rng.unit()
+        k = rng.choice([0, 1]) if reg["type"] in ("cyl", "cone", "prism") else k   # tilt the z axis
+        c = [0.0, 0.0, 0.0]
+        if rng.chance(2, 3):
+            c[k] = (rng.unit() * 2 - 1) * 3.0
+        return reg, {"R": axis_rotation(k, th), "t": list(c)}, regB, {"R": axis_rotation(k, -th), "t": list(c)}, kind
+    if kind == "swap":
+        perm = rng.choice([[0, 0, 1, 1, 0, 0, 0, 1, 0], [0, 1, 0, 0, 0, 1, 1, 0, 0], [1, 0, 0, 0, 0, -1, 0, 1, 0],
+                           [0, -1, 0, 1, 0, 0, 0, 0, 1]])
+        return reg, list(c) if any(c) else None, regB, {"R": [float(v) for v in perm], "t": list(c)}, kind
+    R = rnd_matrix(rng, tol) if rng.chance(1, 2) else None
+    t = [(rng.unit() * 2 - 1) * 2.0 for _ in range(3)]
+    xa = {"R": R, "t": t} if R else t
+    if kind == "shift":
+        m = math.exp(math.log(0.01 * tol) + (math.log(1000 * tol) - math.log(0.01 * tol)) * rng.unit())
+        if rng.chance(1, 4):
+            m = 0.05 + rng.unit()
+        v = [rng.unit() * 2 - 1 for _ in range(3)]
+        if rng.chance(1, 2):
+            v = [0.0, 0.0, 0.0]
+            v[rng.below(3)] = 1.0
+        n = math.sqrt(sum(q * q for q in v)) or 1.0
+        t2 = [t[i] + m * v[i] / n for i in range(3)]
+        xb = {"R": R, "t": t2} if R else t2
+        return reg, xa, regB, xb, kind
+    if kind == "scale":
+        eps = math.exp(math.log(0.01 * tol) + (math.log(100 * tol) - math.log(0.01 * tol)) * rng.unit())
+        j = rng.below(len(regB["p"]) if reg["type"] != "prism" else 2)
+        regB["p"][j] = regB["p"][j] * (1 + eps)
+        return reg, xa, regB, xa, kind
+    return reg, xa, regB, xa, kind
+
+
+def groups_of(tag, d):
+    """coefficient groups of a surface (name -> vector) used by the independent closeness test"""
+    if tag in ("px", "py", "pz"):
+        return {"position": [d[0]]}
+    if tag == "p":
+        return {"normal": d[:3], "displacement": [d[3]]}
+    if tag in ("cxc", "cyc", "czc", "sc"):
+        return {"radius": [math.sqrt(abs(d[0]))]}
+    if tag in ("cx", "cy", "cz"):
+        return {"origin": d[:2], "radius": [math.sqrt(abs(d[2]))]}
+    if tag == "s":
+        return {"origin": d[:3], "radius": [math.sqrt(abs(d[3]))]}
+    if tag in ("kx", "ky", "kz"):
+        return {"origin": d[:3], "tangent": [math.sqrt(abs(d[3]))]}
+    if tag == "sq":
+        return {"second": d[:3], "first": d[3:6], "zeroth": [d[6]]}
+    if tag == "gq":
+        return {"second": d[:3], "cross": d[3:6], "first": d[6:9], "zeroth": [d[9]]}
+    return {}
+
+
+def surf_far(tag_a, da, tag_b, db, rel, abs_=None, slack=4.0, written=False):
+    """independent closeness predicate with the DOCUMENTED SoftEqual semantics
+    |a − b| < max(abs, rel·max(‖a‖, ‖b‖)) per coefficient group (`written=True`: the relative term
+    of vector groups uses abs as SoftSurfaceEqual::soft_eq_distance is written): name of the first
+    group that differs by more than slack × that, or None when all groups are close"""
+    abs_ = rel if abs_ is None else abs_
+    if tag_a != tag_b:
+        return "class"
+    ga, gb = groups_of(tag_a, da), groups_of(tag_b, db)
+    for name in ga:
+        a, b = ga[name], gb[name]
+        na = math.sqrt(sum(v * v for v in a))
+        nb = math.sqrt(sum(v * v for v in b))
+        diff = math.sqrt(sum((a[i] - b[i]) ** 2 for i in range(len(a))))
+        r = abs_ if (written and len(a) > 1) else rel
+        if not diff <= slack * max(abs_, r * max(na, nb)):
+            return name
+    return None
+
+
+def run_pairs(ctx, exe, model, sc, n, findings, stats):
+    """two objects in ONE unit (shared LocalSurfaceInserter): exact diff of the de-duplicated ids
+    against the model, and the dedup oracle on the real code — every source surface must be close,
+    group by group, to the local surface it was mapped to"""
+    rng = ctx.rng
+    pairs = []
+    for _ in range(n):
+        tol = rng.choice([1e-5, 1e-5, 1e-4, 1e-6])
+        pairs.append((tol,) + gen_pair(rng, tol))
+    sc.need([t for p in pairs for r in (p[1], p[3]) for t in region_turns(r)])
+    lines, solo = [], []
+    for tol, ra, xa, rb, xb, kind in pairs:
+        ha, hb = head_words(tol, xa).split(" ", 1)[1], head_words(tol, xb).split(" ", 1)[1]
+        lines.append("build2 %s %s %s / %s %s" % (hx(tol), ha, region_words(ra, sc), hb, region_words(rb, sc)))
+        solo.append("build %s %s" % (head_words(tol, xa), region_words(ra, sc)))
+        solo.append("build %s %s" % (head_words(tol, xb), region_words(rb, sc)))
+    _, oh = vlib.run_lines([exe], lines)
+    _, os_ = vlib.run_lines([exe], solo)
+    diverged = []
+    if model:
+        _, om = vlib.run_lines([model], lines)
+        for l, a, b in zip(lines, oh, om):
+            if not (a == b or (is_crash(a) and b == "diverged")):
+                diverged.append({"op": l, "impl": a[:700], "model": b[:700]})
+    n_checked = n_merged = 0
+    for idx, ((tol, ra, xa, rb, xb, kind), l, o) in enumerate(zip(pairs, lines, oh)):
+        stats["pair_" + kind] = stats.get("pair_" + kind, 0) + 1
+        if not o.startswith("ok nodes"):
+            continue
+        parts = o.split(" | ")
+        joint = []
+        for part in parts[:2]:
+            nodes = []
+            for item in part.split(" ; ")[1:]:
+                w = item.split()
+                nodes.append((w[0], int(w[1]), w[2], [fl(v) for v in w[3:]]))
+            joint.append(nodes)
+        for which, reg, xf in ((0, ra, xa), (1, rb, xb)):
+            sb = parse_build(os_[2 * idx + which])
+            if sb is None or len(sb["nodes"]) != len(joint[which]):
+                continue
+            for (s0, _, tag0, d0), (s1, id1, tag1, d1) in zip(sb["nodes"], joint[which]):
+                n_checked += 1
+                if tag0 == tag1 and d0 == d1:
+                    continue
+                n_merged += 1
+                scale = max(1.0, region_extent(reg) + xf_size(xf))
+                far = surf_far(tag0, d0, tag1, d1, tol * scale)
+                if far is not None:
+                    findings.append(("dedup", reg, tol, xf, l, {
+                        "group": far, "kind": kind, "source_surface": [tag0] + d0,
+                        "mapped_to_local_surface": id1, "which_is": [tag1] + d1,
+                        "other_placement": xa if which else xb}))
+    return len(lines), n_checked, n_merged, diverged
+
+
+def gen_softeq_pair(rng):
+    """(rel, abs, surfA, surfB, what): a surface and a copy with ONE coefficient group perturbed"""
+    from checks import c12
+    rel = rng.choice([1e-5, 1e-5, 1e-4, 1e-6, 1e-3])
+    abs_ = rel if rng.chance(3, 4) else rel * rng.choice([0.01, 100.0])
+    tag, d = c12.gen_surface(rng)
+    if tag == "p":
+        n = math.sqrt(sum(v * v for v in d[:3])) or 1.0
+        d = [v / n for v in d[:3]] + [d[3]]
+    k = rng.below(10)
+    if k == 0:
+        return rel, abs_, (tag, d), (tag, list(d)), "same"
+    if k == 1:
+        tag2, d2 = c12.gen_surface(rng)
+        return rel, abs_, (tag, d), (tag2, d2), "other"
+    g = groups_of(tag, d)
+    name = rng.choice(sorted(g))
+    # positions of the group inside the storage data
+    layout = {"px": {"position": [0]}, "p": {"normal": [0, 1, 2], "displacement": [3]},
+              "sc": {"radius": [0]}, "s": {"origin": [0, 1, 2], "radius": [3]},
+              "sq": {"second": [0, 1, 2], "first": [3, 4, 5], "zeroth": [6]},
+              "gq": {"second": [0, 1, 2], "cross": [3, 4, 5], "first": [6, 7, 8], "zeroth": [9]}}
+    lay = layout.get(tag)
+    if lay is None:
+        if tag in ("py", "pz"):
+            lay = layout["px"]
+        elif tag in ("cxc", "cyc", "czc"):
+            lay = {"radius": [0]}
+        elif tag in ("cx", "cy", "cz"):
+            lay = {"origin": [0, 1], "radius": [2]}
+        else:
+            lay = {"origin": [0, 1, 2], "tangent": [3]}
+    idxs = lay[name]
+    scale = max(1.0, math.sqrt(sum(d[i] * d[i] for i in idxs)))
+    m = math.exp(math.log(0.01 * rel) + (math.log(1000 * rel) - math.log(0.01 * rel)) * rng.unit()) * scale
+    if rng.chance(1, 5):
+        m = 0.1 + rng.unit()
+    d2 = list(d)
+    if tag == "p" and name == "normal":
+        # rotate the normal by the angle m about a random perpendicular direction
+        ax = [rng.unit() * 2 - 1 for _ in range(3)]
+        dot = sum(ax[i] * d[i] for i in range(3))
+        ax = [ax[i] - dot * d[i] for i in range(3)]
+        na = math.sqrt(sum(v * v for v in ax)) or 1.0
+        ax = [v / na for v in ax]
+        nn = [math.cos(m) * d[i] + math.sin(m) * ax[i] for i in range(3)]
+        d2[:3] = nn
+    else:
+        v = [rng.unit() * 2 - 1 for _ in idxs]
+        nv = math.sqrt(sum(q * q for q in v)) or 1.0
+        for j, i in enumerate(idxs):
+            d2[i] = d[i] + m * v[j] / nv
+        if name in ("radius", "tangent"):
+            i = idxs[0]
+            r = math.sqrt(abs(d[i])) + m * rng.choice([1.0, -1.0])
+            d2[i] = r * r
+    return rel, abs_, (tag, d), (tag, d2), name
+
+
+def run_softeq(ctx, exe, model, n, findings):
+    """SoftSurfaceEqual on pairs that differ in one coefficient group: exact diff with the model;
+    oracles on the real answers: symmetry, reflexivity, and `soft-equal ⇒ every group close`"""
+    rng = ctx.rng
+    cases = [gen_softeq_pair(rng) for _ in range(n)]
+    # the documented-vs-written relative term of soft_eq_distance: abs = 100 rel, far origins
+    cases.append((1e-5, 1e-3, ("s", [1000.0, 0.0, 0.0, 4.0]), ("s", [1000.5, 0.0, 0.0, 4.0]), "origin"))
+
+    def line(rel, abs_, a, b):
+        return "softeq %s %s %s %s | %s %s" % (hx(rel), hx(abs_), a[0], " ".join(hx(v) for v in a[1]),
+                                              b[0], " ".join(hx(v) for v in b[1]))
+    lines = []
+    for rel, abs_, a, b, what in cases:
+        lines += [line(rel, abs_, a, b), line(rel, abs_, b, a), line(rel, abs_, a, a)]
+    _, oh = vlib.run_lines([exe], lines)
+    diverged = []
+    if model:
+        _, om = vlib.run_lines([model], lines)
+        for l, x, y in zip(lines, oh, om):
+            if x != y:
+                diverged.append({"op": l, "impl": x, "model": y})
+    for i, (rel, abs_, a, b, what) in enumerate(cases):
+        ab, ba, aa = oh[3 * i], oh[3 * i + 1], oh[3 * i + 2]
+        if ab != ba:
+            findings.append(("softeq-asym", {"type": a[0]}, rel, None, lines[3 * i],
+                             {"a_b": ab, "b_a": ba, "group": what}))
+        if aa.split()[:1] != ["1"] and all(math.isfinite(v) for v in a[1]):
+            findings.append(("softeq-irrefl", {"type": a[0]}, rel, None, lines[3 * i + 2], {"a_a": aa}))
+        if ab.split()[:1] == ["1"]:
+            far = surf_far(a[0], a[1], b[0], b[1], rel, abs_)
+            if far is not None:
+                slip = abs_ != rel and surf_far(a[0], a[1], b[0], b[1], rel, abs_, written=True) is None
+                findings.append(("softeq-far/slip" if slip else "softeq-far", {"type": a[0]}, rel, None,
+                                 lines[3 * i], {"group": far, "abs": abs_, "rel": rel,
+                                                "a": [a[0]] + a[1], "b": [b[0]] + b[1]}))
+    return len(lines), diverged
 
 
 # --------------------------------------------------------------------------- the check
@@ -1241,6 +1525,8 @@ def run_e2e(ctx, exe, sc, n, npts, findings, stats):
     ]
     for _ in range(n):
         objs.append(gen_object(rng))
+    for _ in range(max(3, n // 3)):
+        objs.append(gen_pair_object(rng, 1e-5))
     objs = fixed + objs
     tol = 1e-5
     # surfaces of every leaf (through the standalone build) for the distance filter
@@ -1273,6 +1559,7 @@ def run_e2e(ctx, exe, sc, n, npts, findings, stats):
         g = [-1.1, -0.5, 0.0, 0.45, 1.05]
         for _ in range(npts // 3):
             pts.append([ext * rng.choice(g) for _ in range(3)])
+        pts += o.get("_probes", [])
         pts.append([world * 2, 0.0, 0.0])
         fill = i % 2 == 0      # every other geometry gets the two filler volumes (BIH inner nodes)
         lines.append("e2e %s %s %s %s | %s" % (hx(tol), hx(world), "f1" if fill else "f0",
@@ -1366,6 +1653,16 @@ def classify(kind, reg, info):
         return "emission-wrong:" + t
     if kind == "spec-vs-python":
         return "oracle-disagrees-with-lean-spec:" + t
+    if kind == "dedup":
+        return "dedup-merged-distant-surfaces:" + str(info.get("group"))
+    if kind == "softeq-asym":
+        return "softeq-not-symmetric:" + t
+    if kind == "softeq-irrefl":
+        return "softeq-not-reflexive:" + t
+    if kind == "softeq-far/slip":
+        return "softeq-distance-abs-for-rel"
+    if kind == "softeq-far":
+        return "softeq-equal-but-far:" + t + ":" + str(info.get("group"))
     if kind == "xform-sense":
         return "transformed-surface-sense-differs:" + t
     if kind == "e2e-crash":
@@ -1437,9 +1734,12 @@ def run_part(ctx):
         ctx.rng, findings, 24 if quick else 40)
     n_simp, div_simp, simp_crash = run_simplify_diff(ctx, exe, model, (20000 if quick else 300000) * boost)
     n_xf, n_xf_or, div_xf = run_xform_diff(ctx, exe, model, (5000 if quick else 100000) * boost, findings)
+    n_sq, div_sq = run_softeq(ctx, exe, model, (4000 if quick else 60000) * boost, findings)
+    n_pair, n_pair_nodes, n_pair_merged, div_pair = run_pairs(
+        ctx, exe, model, sc, (1500 if quick else 20000) * boost, findings, stats)
     n_e2e, n_e2e_eval = run_e2e(ctx, exe, sc, (300 if quick else 4000) * boost, 40 if quick else 80,
                                 findings, stats)
-    diverged = div_corpus + div_build + div_mem + div_simp + div_xf
+    diverged = div_corpus + div_build + div_mem + div_simp + div_xf + div_sq + div_pair
     if diverged:
         broken.append(f"correspondence: model and implementation differ on {len(diverged)} ops "
                       f"(build {len(div_build)}, member {len(div_mem)}, simplify {len(div_simp)}); "
@@ -1474,6 +1774,8 @@ def run_part(ctx):
     ]
     cov.update({
         "solids_corpus_ops": n_corpus, "solids_build_ops": len(lines), "solids_member_ops": n_mem, "solids_member_points": n_mem_eval,
+        "solids_softeq_ops": n_sq, "solids_pair_ops": n_pair, "solids_pair_nodes": n_pair_nodes,
+        "solids_pair_merged_nodes": n_pair_merged,
         "solids_bbox_points": n_bb, "solids_xform_ops": n_xf, "solids_xform_sense_points": n_xf_or,
         "solids_simplify_ops": n_simp, "solids_simplify_crashes": simp_crash,
         "solids_e2e_geometries": n_e2e, "solids_e2e_points": n_e2e_eval,
